@@ -122,7 +122,7 @@ def r2_send(ctx, cfg):
         # skipped only when there is nothing to send
         conds = q.dominating_conditions(P, f, bid)
         ok = q.has_cond(conds, "is_empty", pol=False, arg_pred=lambda args: is_param(args[0], "amount"))
-        others = [c for e, c in conds if c[0] == "bool" and not (c[1][0] == "is_empty")]
+        others = [c for e, c in conds if c[0] == "bool" and not q.is_derived(c) and not (c[1][0] == "is_empty")]
         ctx.ob(R, SEND, "skipped-only-for-empty-funds", ok and not others,
                "router.execute in send is guarded by %s" % [c for e, c in conds], fn=f, line=t["line"],
                sample="guard: !amount.is_empty()")
